@@ -72,15 +72,22 @@ type schedState struct {
 	lastKind string // "", "START", "SKIP"
 	lastIdx  sval
 	trail    []string
+	// bexpr: boolean local -> the expression it was last assigned (isMethod := procs[i].IsMethod,
+	// failed := procs[prev].ExitNum != 0). A test of the local is decided by evaluating that
+	// expression; the entry is dropped as soon as a variable the expression mentions is reassigned.
+	bexpr map[types.Object]ast.Expr
 }
 
 func (s *schedState) clone() *schedState {
 	n := &schedState{env: map[types.Object]sval{}, lt: map[string]int64{}, ge: map[string]int64{}, lo: map[string]int64{},
 		ilo: map[types.Object]int64{}, ihi: map[types.Object]int64{}, hasLo: map[types.Object]bool{}, hasHi: map[types.Object]bool{}, ine: map[types.Object]map[int64]bool{},
 		examined: map[string]bool{}, method: map[string]int{}, flag: map[string]int{}, waited: map[string]bool{}, skipped: map[string]bool{},
-		lastKind: s.lastKind, lastIdx: s.lastIdx}
+		lastKind: s.lastKind, lastIdx: s.lastIdx, bexpr: map[types.Object]ast.Expr{}}
 	for k, v := range s.env {
 		n.env[k] = v
+	}
+	for k, v := range s.bexpr {
+		n.bexpr[k] = v
 	}
 	for k, v := range s.lt {
 		n.lt[k] = v
@@ -167,6 +174,9 @@ func (s *schedState) sig() string {
 	}
 	for k := range s.skipped {
 		parts = append(parts, "s:"+k)
+	}
+	for o, e := range s.bexpr {
+		parts = append(parts, fmt.Sprintf("bx:%s@%d", o.Name(), e.Pos()))
 	}
 	parts = append(parts, "last:"+s.lastKind+":"+s.lastIdx.String())
 	sort.Strings(parts)
@@ -430,11 +440,37 @@ func (ex *schedExplorer) procIndex(e ast.Expr, st *schedState) (sval, bool) {
 	if u, ok := e.(*ast.UnaryExpr); ok && u.Op == token.AND {
 		e = unparen(u.X)
 	}
+	// pointer local bound to an element of the list: p := &(*procs)[k] ; p.ExitNum, waitProcess(p)
+	if id, ok := e.(*ast.Ident); ok {
+		if o := ex.info.ObjectOf(id); o != nil && isPointerVar(o) {
+			if v, ok := st.env[o]; ok {
+				return v, true
+			}
+		}
+		return sval{}, false
+	}
 	ix, ok := e.(*ast.IndexExpr)
 	if !ok || !ex.isProcs(ix.X) {
 		return sval{}, false
 	}
 	return ex.evalIdx(ix.Index, st), true
+}
+
+func isPointerVar(o types.Object) bool {
+	if _, ok := o.(*types.Var); !ok {
+		return false
+	}
+	_, ok := o.Type().Underlying().(*types.Pointer)
+	return ok
+}
+
+// forget drops the boolean-local definitions that mention o (o was reassigned).
+func (ex *schedExplorer) forget(o types.Object, st *schedState) {
+	for b, e := range st.bexpr {
+		if b == o || mentions(ex.info, e, o) {
+			delete(st.bexpr, b)
+		}
+	}
 }
 
 // procField: e is (*procs)[idx].Field
@@ -619,6 +655,12 @@ func (ex *schedExplorer) evalCond(e ast.Expr, st *schedState) []condBranch {
 			a, b := ex.evalIdx(x.X, st), ex.evalIdx(x.Y, st)
 			return ex.cmpSym(a, b, x.Op, st)
 		}
+	case *ast.Ident:
+		if o := ex.info.ObjectOf(x); o != nil {
+			if def, ok := st.bexpr[o]; ok {
+				return ex.evalCond(def, st)
+			}
+		}
 	case *ast.SelectorExpr:
 		if idx, field, ok := ex.procField(x, st); ok {
 			key := idx.String()
@@ -785,6 +827,7 @@ func (ex *schedExplorer) walk(b *cfg.Block, from int, st *schedState) {
 				if id, ok := rs.Key.(*ast.Ident); ok {
 					o := ex.info.ObjectOf(id)
 					body := st.clone()
+					ex.forget(o, body)
 					v := body.env[o]
 					if v.kind != 0 {
 						v.off++
@@ -820,15 +863,55 @@ func (ex *schedExplorer) assign(lhs ast.Expr, rhs ast.Expr, st *schedState) {
 		if rhs != nil {
 			ex.noteReads(rhs, st)
 		}
+		// a store to an exit number outdates the boolean locals computed from exit numbers
+		if se, isSel := unparen(lhs).(*ast.SelectorExpr); isSel && se.Sel.Name == "ExitNum" {
+			for b, e := range st.bexpr {
+				stale := false
+				ast.Inspect(e, func(n ast.Node) bool {
+					if s2, isS := n.(*ast.SelectorExpr); isS && s2.Sel.Name == "ExitNum" {
+						stale = true
+					}
+					return true
+				})
+				if stale {
+					delete(st.bexpr, b)
+				}
+			}
+		}
 		return
 	}
 	o := ex.info.ObjectOf(id)
 	if o == nil {
 		return
 	}
+	ex.forget(o, st)
+	if isPointerVar(o) {
+		// p := &(*procs)[k]
+		delete(st.env, o)
+		if u, ok := unparen(rhs).(*ast.UnaryExpr); ok && rhs != nil && u.Op == token.AND {
+			if ix, ok := unparen(u.X).(*ast.IndexExpr); ok && ex.isProcs(ix.X) {
+				if v := ex.evalIdx(ix.Index, st); v.kind != 0 {
+					st.env[o] = v
+				}
+			}
+		}
+		return
+	}
 	if b, ok := o.Type().Underlying().(*types.Basic); !ok || b.Info()&types.IsInteger == 0 {
 		if rhs != nil {
 			ex.noteReads(rhs, st)
+			if ok && b.Info()&types.IsBoolean != 0 && o.Parent() != types.Universe && !mentions(ex.info, rhs, o) {
+				st.bexpr[o] = rhs
+				// the &&/|| flags read here count as examined here
+				ast.Inspect(rhs, func(n ast.Node) bool {
+					if se, isSel := n.(*ast.SelectorExpr); isSel {
+						if idx, field, isPF := ex.procField(se, st); isPF && idx.kind != 0 && (field == "OperatorLogicOr" || field == "OperatorLogicAnd") {
+							st.examined[idx.String()] = true
+						}
+					}
+					return true
+				})
+			}
 		}
 		return
 	}
@@ -876,6 +959,9 @@ func (ex *schedExplorer) exec(n ast.Node, st *schedState) bool {
 	case *ast.IncDecStmt:
 		if id, ok := unparen(s.X).(*ast.Ident); ok {
 			o := ex.info.ObjectOf(id)
+			if o != nil {
+				ex.forget(o, st)
+			}
 			if v, ok := st.env[o]; ok && v.kind != 0 {
 				if s.Tok == token.INC {
 					v.off++
@@ -1012,6 +1098,14 @@ func (ex *schedExplorer) event(kind string, idx sval, n ast.Node, st *schedState
 	st.lastKind, st.lastIdx = kind, idx
 	st.rebase(idx)
 	st.lastIdx = sval{2, "b", 0}
+	// a local that is not reassigned between events drifts away from the event index with
+	// every rebase; beyond the window it is forgotten (as assign does) so that the abstract
+	// state space stays finite
+	for o, v := range st.env {
+		if v.kind == 2 && v.sym != "LEN" && (v.off > 6 || v.off < -6) {
+			st.env[o] = sval{}
+		}
+	}
 	// drop knowledge that no later obligation can use (keeps the abstract
 	// state space small): facts about processes behind the event, flags already
 	// consumed by the decision that led here.
